@@ -692,6 +692,72 @@ pub fn t_names(a: &[i64]) -> Val {
     outcome(st.build())
 }
 
+// t_marks: visibility, marker attributes, packing and doc comments on every item kind (C17).
+//   [m_doc] module m:
+//     [t_doc] [pub] type T [copyable] [cloneable] [defaultable] (packed | align(8)) { [fa_doc] [pub] a: u64, [pub] b: u64 }
+//     impl T { [g_doc] #[address(64)] [pub] fn g(&self) -> u32; }
+//     pub type V { vftable { [v_doc] [pub] fn v(&self); } }
+//     [e_doc] [pub] enum E: u32 [copyable] [cloneable] [defaultable] { A, [#[default]] B }     (the marker is there iff defaultable)
+// a = [ps, t_vis, fa_vis, fb_vis, g_vis, t_copyable, t_cloneable, t_defaultable, t_packed, t_doc, fa_doc, g_doc,
+//      e_vis, e_copyable, e_cloneable, e_defaultable, e_doc, v_vis, v_doc, m_doc]            (*_doc: number of doc lines, 0..2)
+fn doc_attrs(what: &str, n: i64) -> Vec<A> {
+    let mut out = vec![];
+    let mut i = 0;
+    while i < n && i < 2 {
+        out.push(A::doc(&format!(" {} doc {}", what, i)));
+        i += 1;
+    }
+    out
+}
+pub fn t_marks(a: &[i64]) -> Val {
+    let ps = a[0] as usize;
+    let vis = |x: i64| if x != 0 { V::Public } else { V::Private };
+    let mut t_attrs = doc_attrs("T", a[9]);
+    if a[5] != 0 {
+        t_attrs.push(A::copyable());
+    }
+    if a[6] != 0 {
+        t_attrs.push(A::cloneable());
+    }
+    if a[7] != 0 {
+        t_attrs.push(A::defaultable());
+    }
+    t_attrs.push(if a[8] != 0 { A::packed() } else { A::align(8) });
+    let td = TD::new([
+        TS::field((vis(a[2]), "a"), T::ident("u64")).with_attributes(doc_attrs("a", a[10])),
+        TS::field((vis(a[3]), "b"), T::ident("u64")),
+    ])
+    .with_attributes(t_attrs);
+    let g = F::new((vis(a[4]), "g"), [Ar::ConstSelf])
+        .with_attributes({
+            let mut at = doc_attrs("g", a[11]);
+            at.push(A::integer_fn("address", 64));
+            at
+        })
+        .with_return_type(T::ident("u32"));
+    let v = F::new((vis(a[17]), "v"), [Ar::ConstSelf]).with_attributes(doc_attrs("v", a[18]));
+    let mut e_attrs = doc_attrs("E", a[16]);
+    if a[13] != 0 {
+        e_attrs.push(A::copyable());
+    }
+    if a[14] != 0 {
+        e_attrs.push(A::cloneable());
+    }
+    if a[15] != 0 {
+        e_attrs.push(A::defaultable());
+    }
+    let b = if a[15] != 0 { ES::field("B").with_attributes([A::default()]) } else { ES::field("B") };
+    let m = M::new()
+        .with_attributes(doc_attrs("module", a[19]))
+        .with_definitions([
+            ID::new((vis(a[1]), "T"), td),
+            ID::new((V::Public, "V"), TD::new([TS::vftable([v])])),
+            ID::new((vis(a[12]), "E"), ED::new(T::ident("u32"), [ES::field("A"), b], e_attrs)),
+        ])
+        .with_impls([FB::new("T", [g])]);
+    build_one(ps, &m)
+}
+
 // t_implname: impl block of T whose function names may already be taken (C05: every declared #[address] function is emitted, or the
 // description is rejected).
 //   type Bz { x: u32 }  impl Bz { #[address(256)] [pub] fn <bname>(&self) -> u32; }         (base_kind != 0)
@@ -1668,6 +1734,7 @@ pub const TEMPLATES: &[(&str, Template)] = &[
     ("t_enum", t_enum),
     ("t_impl", t_impl),
     ("t_implname", t_implname),
+    ("t_marks", t_marks),
     ("t_order_modules", t_order_modules),
     ("t_names", t_names),
     ("t_vftargs", t_vftargs),
